@@ -32,6 +32,73 @@ BUDGET = {"quick": 400, "thorough": 3600}
 CASE_TIMEOUT = {"quick": 120, "thorough": 300}
 
 
+NEEDS_ICONTRACT = True
+_STATE = {"inv_calls": 0, "inv_compared": 0, "busy": False}
+
+
+class InvariantBroken(AssertionError):
+    pass
+
+
+def no_stale_cache(self):
+    """Class invariant on the real lazily evaluated classes: every cached quantity equals what the same object computes once its
+    cache is emptied (evaluated at every 5th public call on a shallow clone, so the object itself is not disturbed)."""
+    if _STATE["busy"]:
+        return True
+    _STATE["inv_calls"] += 1
+    if _STATE["inv_calls"] % 5:
+        return True
+    # icontract also checks around __delattr__, which the cache clearing itself uses: inside __setattr__ / _clear_cache the
+    # object is legitimately in a transient state (new attribute, old cache not yet dropped)
+    import sys
+    fr_, depth_ = sys._getframe(1), 0
+    while fr_ is not None and depth_ < 14:
+        if fr_.f_code.co_name in ("_clear_cache", "__setattr__") and fr_.f_code.co_filename.endswith("internal_functions.py"):
+            return True
+        fr_, depth_ = fr_.f_back, depth_ + 1
+    cached = {k: val for k, val in vars(self).items() if k.startswith("_lazy_")}
+    if not cached:
+        return True
+    _STATE["busy"] = True
+    try:
+        import copy
+        clone = copy.copy(self)
+        for k in cached:
+            clone.__dict__.pop(k, None)
+        for k, val in cached.items():
+            name = k[len("_lazy_"):]
+            try:
+                fresh = getattr(clone, name)
+            except Exception:       # noqa: BLE001 -- not recomputable in this state: nothing to compare
+                continue
+            try:
+                a_, b_ = np.asarray(val, float), np.asarray(fresh, float)
+            except Exception:       # noqa: BLE001 -- lists of path objects and the like
+                continue
+            if a_.shape != b_.shape:
+                return False
+            _STATE["inv_compared"] += 1
+            scale = max(float(np.max(np.abs(b_))) if b_.size else 0.0, 1e-300)
+            if b_.size and not np.allclose(a_, b_, rtol=1e-9, atol=1e-12 * scale, equal_nan=True):
+                return False
+        return True
+    finally:
+        _STATE["busy"] = False
+
+
+def setup():
+    import icontract
+    import pyrex.signals as sg
+    import pyrex.ray_tracing as rt
+    for cls in (sg.FunctionSignal, sg.FullThermalNoise, sg.FFTThermalNoise, rt.BasicRayTracer, rt.SpecializedRayTracer, rt.UniformRayTracer,
+                rt.BasicRayTracePath, rt.SpecializedRayTracePath, rt.UniformRayTracePath):
+        if not cls.__dict__.get("_vt_inv", False):
+            # only around public calls: between an attribute assignment and the cache clearing that follows it inside
+            # __setattr__ the object is legitimately in a transient state
+            icontract.invariant(no_stale_cache, error=InvariantBroken, check_on=icontract.InvariantCheckEvent.CALL)(cls)
+            cls._vt_inv = True
+
+
 def gen_cases(tier, seed):
     rng = rng_for(PROPERTY, seed)
     n = 1500 if tier == "quick" else 40000
@@ -50,6 +117,7 @@ def gen_cases(tier, seed):
             cls = "ray-path"
         out.append({"cls": cls, "N": int(rng.integers(8, 80)), "dt": float(rng.choice([1e-9, 0.5e-9, 0.37e-9])),
                     "t_start": float(rng.uniform(-50e-9, 50e-9)), "nops": int(rng.integers(2, 16))})
+    out.append({"cls": "repo-suite", "files": ["tests/test_signals.py", "tests/test_askaryan.py", "tests/test_ray_tracing.py", "tests/test_antenna.py", "tests/test_kernel.py"]})
     return out
 
 
@@ -504,7 +572,7 @@ def run_ray_case(case, v):
     return rmr, {"kind": kind, "object": case["cls"], "history": log, "read_mutate_read": rmr}, True
 
 
-def run_case(case):
+def _run_case(case):
     v = V()
     if case["cls"] in ("ray-tracer", "ray-path"):
         rmr, sample, decided = run_ray_case(case, v)
@@ -515,3 +583,24 @@ def run_case(case):
 
 def fx_set_buffers(case, viol):
     return any("set_buffers" in h for h in viol["detail"].get("history", [])[-3:])
+
+
+def run_case(case):
+    if case["cls"] == "repo-suite":
+        from vt import suite
+        v_ = V()
+        rep = suite.run("c06", case["files"])
+        evals = int(rep.get("contract_evaluations", {}).get("c06", {}).get("inv_compared", 0))
+        v_.events += evals
+        for f_ in rep.get("contract_failures", []):
+            v_.check(False, "contract holds while the repository's own tests run", test=f_["test"], message=f_["message"])
+        sample_ = {"workload": "repository test files under the contract", "files": rep.get("files"), "tests_collected": rep.get("collected"), "cached_quantities_recomputed_and_compared": evals, "pytest": rep.get("tail")}
+        if rep.get("returncode") != 0 and not rep.get("contract_failures"):
+            return v_.result(decided=False, nontrivial=False, sample=sample_, skip="repository tests did not pass under the plugin")
+        return v_.result(decided=True, nontrivial=evals >= 50, sample=sample_)
+    try:
+        return _run_case(case)
+    except InvariantBroken as e:
+        v_ = V()
+        v_.check(False, "class invariant: no cached quantity differs from what the object computes once its cache is emptied", contract=str(e)[:300], kind=case["cls"])
+        return v_.result(decided=True, nontrivial=True, sample={"kind": case["cls"]})
